@@ -125,7 +125,12 @@ func init() {
 		off := in.tzOffset()
 		st := res[0].(structure)
 		ext := st[1].(*Term)
-		return tuple{structure{st[0], in.tb.BVAdd(ext, in.tb.BV(SBV64, uint64(-off))), lp}, nilError()}
+		shifted := in.tb.BVAdd(ext, in.tb.BV(SBV64, uint64(-off)))
+		if in.path.tzShift == nil {
+			in.path.tzShift = map[*Term]*Term{}
+		}
+		in.path.tzShift[shifted] = ext // the local wall-clock reading of this instant is that of ext in UTC
+		return tuple{structure{st[0], shifted, lp}, nilError()}
 	}
 	// calendar components of concrete instants whose zone is the process's own local zone (the
 	// explored one); any other Time (UTC, a zone the harness set up itself) runs the real code
@@ -195,6 +200,17 @@ func init() {
 			// a Time in the local zone: the process time zone is part of the environment and is
 			// explored - UTC, a negative and a positive offset. Under a non-zero offset the text
 			// is that of the shifted instant (an opaque piece unless it is concrete).
+			if orig, ok := in.path.tzShift[ext]; ok {
+				// an instant read with ParseInLocation(…, Local): shown in the local zone it reads as
+				// the original wall-clock text
+				if ph, ok := in.path.dayByExt[orig]; ok && in.path.days[ph].layout == layout {
+					return ph
+				}
+				if t, ok := nativeTime(structure{st[0], orig, (*value)(nil)}); ok {
+					return t.Format(layout)
+				}
+				return &Rope{atoms: []Atom{in.newOpaque("time:"+layout, orig)}}
+			}
 			if off := in.tzOffset(); off != 0 {
 				shifted := in.tb.BVAdd(ext, in.tb.BV(SBV64, uint64(off)))
 				if _, isDay := in.path.dayByExt[ext]; isDay && dateOnlyLayout(layout) {
